@@ -150,7 +150,12 @@ def block_count_covers_the_length(ctx, rule='BLOCKS/count-covers-the-length'):
         core = next((a for a in core.args if U.const_value(a) is None), core)
       plain = isinstance(core, ast.BinOp) and isinstance(core.op, ast.FloorDiv) and is_len(core.left)
       cons = '%s: the blocks visited cover the whole signal' % q
-      if plain:
+      end_ = getattr(lp, 'end_lineno', lp.lineno)
+      tail = [x for st2 in ast.walk(fn) if isinstance(st2, ast.stmt) and getattr(st2, 'lineno', 0) > end_ for x in ast.walk(st2) if isinstance(x, ast.Slice) and x.lower is not None and x.upper is None]
+      if plain and tail:
+        why = 'cannot classify: the loop visits whole blocks only, and a statement after it touches a tail slice [..:]; whether that covers the partial block is not decided'
+        ctx.ob(rule, fi, lp, False, why, construct=cons, unknown=why)
+      elif plain:
         ctx.ob(rule, fi, lp, False, 'the loop visits `%s` blocks - the floor of length / block size: when the length is not a multiple of the block size the last, partial block is never converted '
                'and the tail of the result keeps the value it was allocated with' % norm_text(cnt)[:60], construct=cons, definite=True)
       else:
